@@ -5,57 +5,82 @@ import EV.Props.C07carrier
 # C10 — histories served from the cache are never stale once quiescent
 
 Same model as C07 (`EV/Model/System.lean`, suite `notifcache`): `cache` is
-`SessionManager._history_cache` (script hash ↦ version of the cached history; LRU eviction is not
-modelled — removing entries can only help), filled by `limited_history` when a read is accepted and
-invalidated by `_notify_sessions` for the touched script hashes.
+`SessionManager._history_cache` (script hash ↦ version of the cached confirmed history), filled by
+`limited_history` when a read is accepted, invalidated by `_notify_sessions` for the touched script
+hashes — AFTER its `await self._refresh_hsub_results(height)`, which the model cuts: between
+`_notify_count += 1` and the invalidation a stale entry can still be served; the entry's script hash
+is then in the `xs` of a suspended header read (`Owed`), and the invalidation follows.  LRU eviction
+is the event `evict`.  The mempool part of a status / history is never cached (read from `MemPool`
+without suspension), so parent flips do not concern this cache.
 -/
 namespace EV.System
 
 /-- **C10 (invariant).**  In every reachable state every cached history belongs to a version that is
-current, or whose change is still carried towards `_notify_sessions` (which will drop the entry). -/
+current, or whose script hash is still owed a `_notify_sessions` pass that will drop the entry (still
+carried, or in the touched set of a call suspended in its header read; or the pass was lost:
+`lost`, `suppressed` — both empty at quiescence). -/
 theorem C10_invariant (n m : Nat) (evs : List Ev) (hx v : Nat)
     (hl : lookup hx (run {} (init n m) evs).cache = some v) :
-    v = curOf (run {} (init n m) evs) hx ∨ hx ∈ (run {} (init n m) evs).carrier :=
+    v = confOf (run {} (init n m) evs) hx ∨ Owed (run {} (init n m) evs) hx :=
   (inv_run _ evs (inv_init n m)).cache hx v hl
 
-/-- **C10 (fresh).**  For every schedule, in every quiescent state reached (no change still carried,
-no read in flight) — whatever was cached earlier —
+/-- **C10 (fresh).**  For every schedule, in every quiescent state reached — whatever was cached
+earlier —
  1. every cached history is the current one (so a `get_history` answered from the cache is current);
  2. a `get_history` of an uncached script hash issued then, whose read is performed and delivered
     (without an intervening notification), caches — and returns — the current version, and leaves
     the server quiescent. -/
-theorem C10_fresh (n m : Nat) (evs : List Ev)
-    (hc : (run {} (init n m) evs).carrier = []) (ht : (run {} (init n m) evs).tasks = []) :
-    (∀ hx v, lookup hx (run {} (init n m) evs).cache = some v → v = curOf (run {} (init n m) evs) hx) ∧
+theorem C10_fresh (n m : Nat) (evs : List Ev) (hq : Quiet (run {} (init n m) evs)) :
+    (∀ hx v, lookup hx (run {} (init n m) evs).cache = some v → v = confOf (run {} (init n m) evs) hx) ∧
     (∀ s hx, lookup hx (run {} (init n m) evs).cache = none →
       lookup hx (run {} (run {} (init n m) evs) [.getHistory s hx, .readDo 0, .readFinish 0]).cache =
-          some (curOf (run {} (init n m) evs) hx) ∧
-        (run {} (run {} (init n m) evs) [.getHistory s hx, .readDo 0, .readFinish 0]).tasks = [] ∧
-        (run {} (run {} (init n m) evs) [.getHistory s hx, .readDo 0, .readFinish 0]).carrier = [] ∧
-        (run {} (run {} (init n m) evs) [.getHistory s hx, .readDo 0, .readFinish 0]).cur =
-          (run {} (init n m) evs).cur) := by
-  refine ⟨(quiescent_current _ (inv_run _ evs (inv_init n m)) hc ht).2, ?_⟩
+          some (confOf (run {} (init n m) evs) hx) ∧
+        Quiet (run {} (run {} (init n m) evs) [.getHistory s hx, .readDo 0, .readFinish 0]) ∧
+        (run {} (run {} (init n m) evs) [.getHistory s hx, .readDo 0, .readFinish 0]).conf =
+          (run {} (init n m) evs).conf) := by
+  refine ⟨(quiescent_current _ (inv_run _ evs (inv_init n m)) hq).2, ?_⟩
   intro s hx hl
-  generalize run {} (init n m) evs = st at hc ht hl
-  simp [run, step, startRead, hl, ht, nthIdx, modifyAt, resume, lookup_put, hc, curOf]
+  obtain ⟨h1, h2, h3, h4, h5, h6, h7⟩ := hq
+  generalize run {} (init n m) evs = st at h1 h2 h3 h4 h5 h6 h7 hl
+  have key : run {} st [.getHistory s hx, .readDo 0, .readFinish 0] =
+      { st with tasks := [], cache := put hx (confOf st hx) st.cache } := by
+    simp [run, step, startRead, hl, h6, nthIdx, modifyAt, resume]
+    rfl
+  rw [key]
+  exact ⟨by simp [lookup_put], ⟨h1, h2, h3, h4, h5, rfl, h7⟩, rfl⟩
 
 /-- every performed read that `limited_history` accepts (no notification since it was started)
-is of a version that is current or still carried — in every reachable state, not only at rest -/
+is of a version that is current or whose change is still in the carrier — in every reachable
+state, not only at rest -/
 theorem C10_accepted_reads (n m : Nat) (evs : List Ev) (t : Task) (v : Nat)
     (htm : t ∈ (run {} (init n m) evs).tasks) (hv : t.value = some v)
     (hcnt : t.countAtStart = (run {} (init n m) evs).notifyCount) :
-    v = curOf (run {} (init n m) evs) t.hx ∨ t.hx ∈ (run {} (init n m) evs).carrier :=
+    v = confOf (run {} (init n m) evs) t.hx ∨ t.hx ∈ (run {} (init n m) evs).carrier :=
   (inv_run _ evs (inv_init n m)).reads t htm v hv hcnt
 
 /-! ### non-vacuity -/
 
 /-- a quiescent state with a cached history of version 1 (clause 1), and an uncached script hash
 (clause 2) -/
-example : (run {} (init 1 2) [.change 0, .notify [0], .getHistory 0 0, .readDo 0, .readFinish 0]).carrier = [] ∧
-    (run {} (init 1 2) [.change 0, .notify [0], .getHistory 0 0, .readDo 0, .readFinish 0]).tasks = [] ∧
-    lookup 0 (run {} (init 1 2) [.change 0, .notify [0], .getHistory 0 0, .readDo 0, .readFinish 0]).cache = some 1 ∧
-    lookup 1 (run {} (init 1 2) [.change 0, .notify [0], .getHistory 0 0, .readDo 0, .readFinish 0]).cache = none := by
-  rw [run_eq_foldl_stepS _ _ _ (by decide)]
+example : (run {} (init 1 2) [.change 0, .notify 0 [0], .getHistory 0 0, .readDo 0, .readFinish 0]).carrier = [] ∧
+    (run {} (init 1 2) [.change 0, .notify 0 [0], .getHistory 0 0, .readDo 0, .readFinish 0]).tasks = [] ∧
+    (run {} (init 1 2) [.change 0, .notify 0 [0], .getHistory 0 0, .readDo 0, .readFinish 0]).hreads = [] ∧
+    lookup 0 (run {} (init 1 2) [.change 0, .notify 0 [0], .getHistory 0 0, .readDo 0, .readFinish 0]).cache = some 1 ∧
+    lookup 1 (run {} (init 1 2) [.change 0, .notify 0 [0], .getHistory 0 0, .readDo 0, .readFinish 0]).cache = none := by
+  decide +kernel
+
+/-- `C10_accepted_reads` is inhabited: a performed read whose count still matches -/
+example : ∃ t ∈ (run {} (init 1 2) [.getHistory 0 0, .readDo 0]).tasks,
+    t.value = some 0 ∧ t.countAtStart = (run {} (init 1 2) [.getHistory 0 0, .readDo 0]).notifyCount :=
+  ⟨⟨0, 0, some 0, .query⟩, by decide +kernel, rfl, by decide +kernel⟩
+
+/-- the window the cut opens: between `_notify_count += 1` and the invalidation the cache still holds
+version 0 of a script hash whose version is 1 — owed (in the `xs` of the suspended header read) -/
+example : lookup 0 (run {} (init 1 2) [.getHistory 0 0, .readDo 0, .readFinish 0, .change 0, .advance 1,
+      .notify 1 [0]]).cache = some 0 ∧
+    confOf (run {} (init 1 2) [.getHistory 0 0, .readDo 0, .readFinish 0, .change 0, .advance 1, .notify 1 [0]]) 0 = 1 ∧
+    (run {} (init 1 2) [.getHistory 0 0, .readDo 0, .readFinish 0, .change 0, .advance 1, .notify 1 [0]]).hreads =
+      [⟨1, none, [0], []⟩] := by
   decide +kernel
 
 /-- **C10 fails without the notification-count check (F5).**  A `get_history` whose read is
@@ -63,14 +88,15 @@ performed before a change and delivered after the change was notified caches the
 at rest the cache serves version 0 while the current version is 1. -/
 theorem C10_counterexample_stale_read :
     (run {checkCount := false} (init 1 2)
-      [.getHistory 0 0, .readDo 0, .change 0, .notify [0], .readFinish 0]).carrier = [] ∧
+      [.getHistory 0 0, .readDo 0, .change 0, .notify 0 [0], .readFinish 0]).carrier = [] ∧
     (run {checkCount := false} (init 1 2)
-      [.getHistory 0 0, .readDo 0, .change 0, .notify [0], .readFinish 0]).tasks = [] ∧
+      [.getHistory 0 0, .readDo 0, .change 0, .notify 0 [0], .readFinish 0]).tasks = [] ∧
+    (run {checkCount := false} (init 1 2)
+      [.getHistory 0 0, .readDo 0, .change 0, .notify 0 [0], .readFinish 0]).hreads = [] ∧
     lookup 0 (run {checkCount := false} (init 1 2)
-      [.getHistory 0 0, .readDo 0, .change 0, .notify [0], .readFinish 0]).cache = some 0 ∧
-    curOf (run {checkCount := false} (init 1 2)
-      [.getHistory 0 0, .readDo 0, .change 0, .notify [0], .readFinish 0]) 0 = 1 := by
-  rw [run_eq_foldl_stepS _ _ _ (by decide)]
+      [.getHistory 0 0, .readDo 0, .change 0, .notify 0 [0], .readFinish 0]).cache = some 0 ∧
+    confOf (run {checkCount := false} (init 1 2)
+      [.getHistory 0 0, .readDo 0, .change 0, .notify 0 [0], .readFinish 0]) 0 = 1 := by
   decide +kernel
 
 end EV.System
